@@ -108,7 +108,7 @@ func runC01(r *Run) error {
 	types := []string{"eventlog", "keyvalue", "docstore"}
 	for hi := 0; hi < hists; hi++ {
 		nw := 1 + r.Rng.Intn(3)
-		nobs := 2
+		nobs := 3
 		typ := types[hi%3]
 		s, err := NewScen(nw+nobs, typ, &ScenOpts{Writers: seq(nw)})
 		if err != nil {
@@ -211,6 +211,64 @@ func runC01(r *Run) error {
 				return err
 			}
 		}
+		// observer C: the load routes.  It takes a snapshot while it holds only a prefix of the
+		// history, receives everything, and then rebuilds its log through Load from its cache
+		// directory and/or LoadFromSnapshot of the older snapshot -- into an empty or a non-empty
+		// store.  Nothing is synced afterwards, so its view is whatever those routes built.
+		oc := nw + 2
+		route := []string{"restart-load-snapshot", "snapshot-into-nonempty", "restart-load", "restart-snapshot-then-sync"}[r.Rng.Intn(4)]
+		if err := syncObserved(oc, headSets[r.Rng.Intn(len(headSets))], "prefix"); err != nil {
+			return err
+		}
+		haveSnap := false
+		if s.Stores[oc].OpLog().Len() > 0 {
+			if out, msg, _ := c13Save(ctx01, s.Stores[oc]); out != c13Ok {
+				r.AddDirect("c01:snapshot-save", "SaveSnapshot failed on an at-rest store: "+msg, map[string]interface{}{"hist": hi})
+			} else {
+				haveSnap = true
+			}
+		}
+		if route != "restart-snapshot-then-sync" {
+			if err := syncObserved(oc, allHeads, "combined"); err != nil {
+				return err
+			}
+		}
+		loadStep := func(what string, f func() error) error {
+			before := snapLog(s, u, s.Stores[oc])
+			if err := f(); err != nil {
+				return fmt.Errorf("%s: %w", what, err)
+			}
+			if !s.Settle() {
+				r.AddDirect("hang:"+what, "store did not settle", map[string]interface{}{"hist": hi, "state": sim.LastSettleState})
+			}
+			after := snapLog(s, u, s.Stores[oc])
+			r.Count("route:" + what)
+			_ = before
+			_ = after
+			observeLog(r, s, u, oc, hi)
+			return nil
+		}
+		if route != "snapshot-into-nonempty" {
+			if err := c13Reopen(s, oc); err != nil {
+				return err
+			}
+		}
+		if route == "restart-load-snapshot" || route == "restart-load" {
+			if err := loadStep("load", func() error { return s.Stores[oc].Load(ctx01, -1) }); err != nil {
+				return err
+			}
+		}
+		if route != "restart-load" && haveSnap {
+			if err := loadStep("snapshot", func() error { return s.Stores[oc].LoadFromSnapshot(ctx01) }); err != nil {
+				return err
+			}
+		}
+		if route == "restart-snapshot-then-sync" {
+			if err := syncObserved(oc, allHeads, "combined-after-snapshot"); err != nil {
+				return err
+			}
+		}
+		r.Count("route=" + route)
 		// pairwise convergence cases
 		snaps := make([]OLog, len(s.Stores))
 		vals := make([][]int, len(s.Stores))
@@ -243,6 +301,8 @@ func runC01(r *Run) error {
 	}
 	return nil
 }
+
+var ctx01 = context.Background()
 
 func observeLog(r *Run, s *Scen, u *Universe, rep int, hi int) {
 	st := s.Stores[rep]
